@@ -99,6 +99,17 @@ PLAN = {
             "member of every couple with ONE value and the couples cover every unrolled layer",
             "parameters() counting each shared parameter once: read, not verified"],
     ),
+    "C11": dict(
+        title="A feedback block computes the repeated, optionally skip-combined, layer sequence",
+        level="proof",
+        verus=["C11_skip_table.rs", "C11_forward.rs"],
+        kani=True,
+        undecided_clauses=[
+            "tensors, shapes and each layer's forward pass are abstract in the forward unit (what a layer computes is C02; that the "
+            "repetitions hold equal layers is C10; the element-wise meaning of add/sub/mul/mean is C15)",
+            "that Feedback::create unrolls the layer list `loops` times (layers.extend(clone)) and that Network::dense sets the flatten "
+            "flag of a preceding block: read, not verified"],
+    ),
     "C12": dict(
         title="validate and predict_batch are faithful aggregations of predict",
         level="model_checking",
@@ -254,6 +265,20 @@ MANIFEST_TEXT = {
         note="Tensor is opaque (clone preserves contents: assumed); the accumulation arithmetic and optimizer calls of update() are outside "
              "the verified regions; creation-time equality and parameters() are read, not verified.",
     ),
+    "C11": dict(
+        category="proof",
+        technique="Verus contracts on the skip-table region of Feedback::create and on the WHOLE Feedback::forward over an abstract tensor algebra",
+        design_ref="DESIGN.md §5 C11",
+        text="Proof for all block lengths, loop counts, flag combinations, accumulations and layer lists: (1) the connection table built by "
+             "Feedback::create contains exactly the starts of repetitions 1.. (each receiving activation 0, the block input) iff in-skips, and "
+             "the output position (receiving the starts of repetitions 1.., i.e. the outputs of all earlier repetitions) iff out-skips; (2) the "
+             "whole Feedback::forward (mechanically extracted, rewrites R12/R13/R17/R18/R19) returns activations that satisfy: a[0] is the input, "
+             "every unrolled layer j is applied in order to a[j] combined - by the configured accumulation, in table order - with the activations "
+             "the table lists for position j; the output is the last activation combined with the table's entry for the output position, "
+             "flattened iff the flag is set. Together with C10 (equal copies) this is the L-fold repeated application with shared weights.",
+        note="abstract tensor algebra (uninterpreted t_add/t_sub/t_mul/t_mean/flatten, layer forward functions); vstd HashMap / Vec specs; "
+             "a panic (shape assertion, nested block) is a permitted outcome (R13).",
+    ),
     "C12": dict(
         category="model_checking",
         technique="Kani bounded model checking of mechanical slices of validate() / predict_batch() with predict and the objective as oracles",
@@ -325,8 +350,5 @@ NOT_APPLICABLE = {
            "(iterator/rayon adapters are outside Verus' subset; CBMC cannot symbolically execute code that moves and drops Tensors held in Vecs)",
     "C05": "quantifies over thread schedules of rayon's pool; Kani has no thread support and Verus has no specification of rayon",
 }
-NOT_APPLICABLE["C11"] = ("whole Feedback::forward is out of reach of both verifiers (CBMC: Nested tensors held in Vecs; Verus: enumerate / HashMap<usize, Vec<usize>> "
-                         "adapters); it would have to be decided on regions (skip table of create, accumulation block, layer step) which have not been built in "
-                         "this round - nothing is claimed")
 NOT_APPLICABLE["C17"] = ("the loop-back block of Network::forward (120 lines over Vec<Vec<Tensor>> with _forward calls) is out of reach of CBMC as a whole and its "
                          "regions have not been built in this round - nothing is claimed")
